@@ -17,7 +17,7 @@ pub fn spec() -> Spec {
     Spec {
         prop: "C07",
         level: "exploration",
-        rule: "Independent ledger model written from the controller/token Solidity source (per exact ticker bytes: balances, allowances incl. 'spender == owner => unlimited' and the controller as intermediate spender, checked total supply, zero-address rules); the RPC methods lower-case the ticker, user calls use exact bytes. Every operation's success is predicted and compared with the receipt status; after every block brc20_balance, token.balanceOf, token.totalSupply and controller.getTickerAddress are compared with the model for every (pkscript/signer, ticker), and sum(balances) = supply = deposits - withdrawals. Operations: deposits, withdrawals (sufficient/exact/insufficient/unknown ticker), controller transfer/approve/transferFrom, direct token calls, adversarial mint/burn/ownership calls from inscriptions, signed transactions, a forwarder contract and eth_call as the indexer address; reorgs roll the model back. Holders have pkscripts of four shapes (34, 22, 2 and 81 bytes) written in lower, upper and mixed-case hex; amounts include 0, 1, 2^64-1..2^64+8, 2^128-1, 2^128, 2^255, 2^256-2, 2^256-1. Non-trivial = operation whose predicted outcome depended on a non-zero balance or allowance; distinct by (op kind, predicted outcome, ticker class).",
+        rule: "Independent ledger model written from the controller/token Solidity source (per exact ticker bytes: balances, allowances incl. 'spender == owner => unlimited' and the controller as intermediate spender, checked total supply, zero-address rules); the RPC methods lower-case the ticker, user calls use exact bytes. Every operation's success is predicted and compared with the receipt status; after every block brc20_balance, token.balanceOf, token.totalSupply and controller.getTickerAddress are compared with the model for every (pkscript/signer, ticker), and sum(balances) = supply = deposits - withdrawals. Operations: deposits, withdrawals (sufficient/exact/insufficient/unknown ticker), controller transfer/approve/transferFrom, direct token calls, adversarial mint/burn/ownership calls from inscriptions, signed transactions, a forwarder contract and eth_call as the indexer address; reorgs roll the model back. Ticker classes: ASCII, non-ASCII capitals, one byte, empty, longer than 32 bytes, and four tickers that differ only by surrounding (ASCII / ideographic) white space. Holders have pkscripts of four shapes (34, 22, 2 and 81 bytes) written in lower, upper and mixed-case hex; amounts include 0, 1, 2^64-1..2^64+8, 2^128-1, 2^128, 2^255, 2^256-2, 2^256-1. Non-trivial = operation whose predicted outcome depended on a non-zero balance or allowance; distinct by (op kind, predicted outcome, ticker class).",
         assumptions: vec!["the model is derived from the Solidity source shipped in the repository, not from the deployed bytecode".into()],
         exhaustive: false,
         min_nontrivial: 2,
@@ -132,6 +132,11 @@ fn tickers() -> Vec<TickerClass> {
         TickerClass { name: "non-ascii", spellings: vec!["ÄÖ", "äö", "Äö"], key: "äö".as_bytes().to_vec() },
         TickerClass { name: "one-byte", spellings: vec!["x", "X"], key: b"x".to_vec() },
         TickerClass { name: "empty", spellings: vec![""], key: vec![] },
+        // tickers that differ only by surrounding white space are different tickers
+        TickerClass { name: "ws-plain", spellings: vec!["ws", "WS"], key: b"ws".to_vec() },
+        TickerClass { name: "ws-padded-right", spellings: vec!["ws ", "WS ", "Ws "], key: b"ws ".to_vec() },
+        TickerClass { name: "ws-padded-left", spellings: vec![" ws", " WS"], key: b" ws".to_vec() },
+        TickerClass { name: "ws-ideographic-space", spellings: vec!["ws\u{3000}", "WS\u{3000}"], key: "ws\u{3000}".as_bytes().to_vec() },
         TickerClass { name: "long", spellings: vec!["averyveryverylongtickernamewithmorethan32bytes", "AVeryVeryVeryLongTickerNameWithMoreThan32Bytes"], key: b"averyveryverylongtickernamewithmorethan32bytes".to_vec() },
     ]
 }
